@@ -376,6 +376,11 @@ example : ∃ s ∈ spellings, s.defined = false := by decide +kernel
 example : broadcast (some [.const 2, .unk "N", .const 1]) (some [.const 3, .unk ""])
     = some (some [.const 2, .const 3, .unk ""]) := by decide
 example : broadcast (some [.const 2]) (some [.const 3]) = none := by decide
+-- dimension names that look like the ones other layers invent or strip survive verbatim, at any nesting depth
+example : fromOnnx table (.seq (.opt (.tensor 1 (some [.param "unk__0", .value 3, .param "7", .param "名"]))))
+    = (table.ofCode 1).map (fun e => Ty.seq (.opt (.tensor e (some [.unk "unk__0", .const 3, .unk "7", .unk "名"])))) := by
+  cases h : table.ofCode 1 <;> simp [fromOnnx, h, Natural.fromOnnx]
+example : Natural.fromOnnx (Natural.toOnnx (.unk "unk__batch")) = .unk "unk__batch" := by decide
 example : npBroadcast [2, 1, 3] [4, 1] = some [2, 4, 3] := by decide
 -- the spellings `(2, 'N', None)` and `(2, 'N', '')` denote one shape; `None` denotes the unknown rank
 example : Shape.fromSimple (some [.int 2, .str "N", .none]) = Shape.fromSimple (some [.int 2, .str "N", .str ""]) := by decide
